@@ -235,6 +235,11 @@ func (m *Machine) callSSA(caller *frame, fn *ssa.Function, args []Value, env []V
 	if in := m.P.intrinsicFor(fn); in != nil {
 		return in(m, caller, fn, args)
 	}
+	return m.runBody(caller, fn, args, env)
+}
+
+// runBody interprets the SSA body of fn (no intrinsic lookup).
+func (m *Machine) runBody(caller *frame, fn *ssa.Function, args []Value, env []Value) Value {
 	if fn.Blocks == nil {
 		m.abort("unsupported: no body for " + fn.String())
 	}
